@@ -91,7 +91,8 @@ fn c08_2a_for_each_visits_each_once() {
     core::mem::forget(storage); core::mem::forget(ctl);
 }
 
-// @ob id=C08.2b strength=bounded tier=thorough timeout=7200 bound="capacity 1, T = u32: create, callback, remove, callback, create again" fn=backend/resources.rs::SelfReferentialResourceStorage::{remove_and_add,remove_unused}
+// @ob id=C08.2b strength=bounded tier=disabled bound="capacity 1, T = u32: create, callback, remove, callback, create again" fn=backend/resources.rs::SelfReferentialResourceStorage::{remove_and_add,remove_unused}
+// @note disabled: passes alone (677 s) but needs > 30 GB and is killed when other harnesses run beside it; C08.2c covers removal in the self-referential storage in 60 s
 // @req capacity 1
 // @ens removal empties `keys` together with the arena and frees the slot for the next create; the removed value is handed to the unused ring (no panic)
 #[kani::proof]
